@@ -205,6 +205,64 @@ fn extreme_factor_cases() -> Vec<(String, World, Query)> {
     out
 }
 
+/// long haul: edges summing to >= 2^20 cost units, then a zero-cost connector (cost 0, or 1e-12: both clamped to
+/// MIN_COST = 1e-10, which the f64 addition absorbs at that magnitude, so both ends of the connector carry
+/// bit-identical cost labels) as the ONLY way onward, then more vertices.  The far side is reachable: a route /
+/// the full reachable set is the required answer.
+fn long_haul_cases() -> Vec<(String, World, Query)> {
+    let mut out: Vec<(String, World, Query)> = vec![];
+    let algs = [Alg::Dijkstra, Alg::AStar(Some(1.0)), Alg::AStar(Some(3.0))];
+    // the haul as one edge or as three edges
+    let hauls: [(&str, Vec<f64>); 4] = [
+        ("2^20", vec![1048576.0]),
+        ("1.5e6", vec![1500000.0]),
+        ("3x4e5", vec![400000.0, 400000.0, 400000.0]),
+        ("1e9", vec![1.0e9]),
+    ];
+    for alg in algs {
+        for dir in [Dir::Forward, Dir::Reverse] {
+            for (hname, haul) in hauls.iter() {
+                for (zname, zero) in [("zero", 0.0), ("sub_min_cost", 1e-12)] {
+                    // vertices: p (entry of the origin edge) = k+4, chain 0 -haul-> .. -> k -zero-> k+1 -1-> k+2, then a
+                    // zero 2-cycle k+2 <-> k+3, and an isolated vertex k+5
+                    let k = haul.len();
+                    let mut es: Vec<(usize, usize)> = vec![(k + 4, 0)];
+                    let mut cs: Vec<f64> = vec![2.0];
+                    for (i, c) in haul.iter().enumerate() {
+                        es.push((i, i + 1));
+                        cs.push(*c);
+                    }
+                    es.push((k, k + 1)); // the connector, edge id k+1
+                    cs.push(zero);
+                    es.push((k + 1, k + 2));
+                    cs.push(1.0);
+                    es.push((k + 2, k + 3));
+                    cs.push(zero);
+                    es.push((k + 3, k + 2));
+                    cs.push(zero);
+                    let n = k + 6;
+                    let es2: Vec<(usize, usize)> = es.iter().map(|(a, b)| if dir == Dir::Reverse { (*b, *a) } else { (*a, *b) }).collect();
+                    let mut w = World::new(n, es2, cs);
+                    if alg != Alg::Dijkstra {
+                        w.h = (0..n).map(|v| (n - v) as f64 * 0.5).collect();
+                    }
+                    let name = |q: &str| format!("long_haul_{}#{}:{}", q, hname, zname);
+                    let vq5 = |s: usize, t: Option<usize>| Query { alg, dir, orient: Orient::Vertex, source: s, target: t, query_wf: None };
+                    let eq5 = |s: usize, t: Option<usize>| Query { alg, dir, orient: Orient::Edge, source: s, target: t, query_wf: None };
+                    out.push((name("behind_connector"), w.clone(), vq5(0, Some(k + 1))));
+                    out.push((name("far_side"), w.clone(), vq5(0, Some(k + 3))));
+                    out.push((name("tree"), w.clone(), vq5(0, None)));
+                    out.push((name("unreachable"), w.clone(), vq5(0, Some(k + 5))));
+                    // edge-oriented: origin edge 0 (p -> 0), destination edge k+2 (k+1 -> k+2), and the tree
+                    out.push((name("eo_far_side"), w.clone(), eq5(0, Some(k + 2))));
+                    out.push((name("eo_tree"), w.clone(), eq5(0, None)));
+                }
+            }
+        }
+    }
+    out
+}
+
 fn rand_costs(rng: &mut Rng, m: usize) -> Vec<f64> {
     if rng.chance(2, 3) {
         gen_costs(rng, m, CostFamily::TieFree)
@@ -319,7 +377,7 @@ fn main() {
     silence_panics();
     let a = parse_args();
     if a.stream == "probe" {
-        for (name, w, q) in c05_cases().into_iter().chain(extreme_factor_cases()).chain(boundary_cases()) {
+        for (name, w, q) in c05_cases().into_iter().chain(extreme_factor_cases()).chain(long_haul_cases()).chain(boundary_cases()) {
             let o = run_query_watchdog(&w, &q, WATCHDOG_MS);
             println!("{:34} {:?} {:?} {:?} s={} t={:?} forbid={:?} :: {}", name, q.alg, q.dir, q.orient, q.source, q.target, w.forbid, summary(&q, &o));
         }
@@ -343,6 +401,9 @@ fn main() {
         add_case(&mut cx, &name, &w, &q, json!({}));
     }
     for (name, w, q) in extreme_factor_cases() {
+        add_case(&mut cx, &name, &w, &q, json!({}));
+    }
+    for (name, w, q) in long_haul_cases() {
         add_case(&mut cx, &name, &w, &q, json!({}));
     }
     for (name, w, q) in boundary_cases() {
@@ -384,7 +445,8 @@ fn main() {
     while cx.st.next_id() < base + a.n {
         let mut r = rng.fork();
         let (n, edges, flags) = gen_graph(&mut r);
-        let cost = rand_costs(&mut r, edges.len());
+        let long_haul = r.chance(1, 5);
+        let cost = if long_haul { gen_costs(&mut r, edges.len(), CostFamily::LongHaul) } else { rand_costs(&mut r, edges.len()) };
         let mut w = World::new(n, edges, cost);
         let fkind = match r.below(4) {
             0 => "none",
@@ -414,7 +476,8 @@ fn main() {
             }
             cx.st.count(&format!("heuristic:{}", hk));
             cx.st.count(&format!("forbid:{}", fkind));
-            add_case(&mut cx, "random", &w, &q, json!({"flags": flags, "heuristic": hk, "forbid": fkind}));
+            let fam = if long_haul { "random_long_haul" } else { "random" };
+            add_case(&mut cx, fam, &w, &q, json!({"flags": flags, "heuristic": hk, "forbid": fkind}));
         }
     }
     cx.st.finish();
